@@ -32,8 +32,12 @@ pub fn constants(
             location.clone(),
             rpl.backward()?
                 .into_iter()
+                // predecessors unreachable from the entry have no state
                 .fold(Constants::new(), |c, location| {
-                    c.join(&constants[&location.into()])
+                    match constants.get(&location.into()) {
+                        Some(predecessor) => c.join(predecessor),
+                        None => c,
+                    }
                 }),
         );
     }
